@@ -61,6 +61,11 @@ def generate(ctx):
             if rng.random() < 0.5:
                 unused = [i for i in range(len(g)) if not any(inp[0] == "n" and i in inp[1] for nd in g for inp in nd["ins"])]
                 c["rerun"]["edit"] = [rng.choice(["swap", "swap", "reconnect"]), rng.choice(unused)]
+        if rng.random() < 0.15 and not (c.get("rerun") or {}).get("edit"):
+            cands = [(i, j) for i, nd in enumerate(g) if i >= 1 and not nd.get("macro") for j, inp in enumerate(nd["ins"]) if inp[0] == "c"]
+            if cands:
+                i, j = rng.choice(cands)
+                c["kwedge"] = [i, j, rng.randrange(i)]
         out.append(c)
     # targeted: a nested macro with a fan-in of 2-3 upstream nodes crosses a pickle boundary (its merged-back copy must
     # come home with clean trigger state), and the workflow is run a second time
@@ -159,9 +164,15 @@ def build(case, name="wf", cls=None):
 def eff(case):
     """the graph the observed run executed: a re-run case bumps every constant input before its second run"""
     rr = case.get("rerun")
-    if not rr:
-        return case["nodes"]
-    return [dict(nd, ins=[(["c", i[1] + rr["bump"]] if i[0] == "c" else i) for i in nd["ins"]]) for nd in case["nodes"]]
+    ns = case["nodes"]
+    if rr:
+        ns = [dict(nd, ins=[(["c", i[1] + rr["bump"]] if i[0] == "c" else i) for i in nd["ins"]]) for nd in ns]
+    ke = case.get("kwedge")
+    if ke:
+        # a data edge that only comes into being with the (last) run: a channel handed to run() as a keyword value
+        i, j, u = ke
+        ns = [dict(nd, ins=[(["n", [u]] if (a == i and b == j) else inp) for b, inp in enumerate(nd["ins"])]) for a, nd in enumerate(ns)]
+    return ns
 
 
 from pyiron_workflow.nodes.macro import as_macro_node  # noqa: E402
@@ -407,9 +418,13 @@ def run_impl(case):
                     for u in reversed(inp[1]):
                         children[i].inputs[nodes.ARG[j]].connect(children[u].outputs[_out(children[u])])
         nodes.reset()
+    run_kw = {}
+    if case.get("kwedge"):
+        i, j, u = case["kwedge"]
+        run_kw = {f"n{i}__{nodes.ARG[j]}": children[u].outputs.y}
     with nodes.poll_hook(make_hook(children, ex, case["oracle"])), nodes.event_log():
         try:
-            ret = wf.run()
+            ret = wf.run(**run_kw)
             res = ["ok", sorted([k, v if isinstance(v, int) else "nd"] for k, v in dict(ret).items())]
         except Exception as e:
             res = ["err", nodes.exc_kind(e)]
@@ -503,7 +518,7 @@ def oracle(case, obs):
         return "not-once: the children of a nested macro were not each called exactly once"
     for i in range(n):
         pass
-    for i, nd in enumerate(case["nodes"]):
+    for i, nd in enumerate(eff(case)):
         if case.get("fam") == "race":
             break       # the callback enqueues before it un-registers (the logged "finish"): order is judged by the values
         for inp in nd["ins"]:
@@ -518,7 +533,7 @@ def oracle(case, obs):
     if any(r or f for r, f in obs["flags"]):
         return "left-running: a node is still running/failed after the run returned"
     # the returned dictionary = the unconnected outputs
-    used = {u for nd in case["nodes"] for inp in nd["ins"] if inp[0] == "n" for u in inp[1]}
+    used = {u for nd in eff(case) for inp in nd["ins"] if inp[0] == "n" for u in inp[1]}
     exp_ret = sorted([f"n{i}__y", exp[i]] for i in range(n) if i not in used)
     if obs["res"][1] != exp_ret:
         return "wrong-return: run() did not return the open outputs' values"
